@@ -33,7 +33,7 @@ def literal_policies():
 
 
 def run(ctx):
-    b = lib.standard_build(ctx, theorems=False)   # no Coq theorem for this property yet: see MANIFEST level
+    b = lib.standard_build(ctx)
     if not lib.require_builds(ctx, b):
         return
     r = ctx.rng
@@ -123,6 +123,23 @@ def run(ctx):
     # correspondence: Resolve (registration, shadowing, Kahn cycle check, reference resolution, action membership) = Impl/SchemaResolve.v
     texts = sorted({c.split(' ')[4] for c in cases})
     rcases = ['(case s%d schemaresolve %s)' % (i, t) for i, t in enumerate(texts)]
+    # JSON-born schemas: names are not validated there, so namespaces, common types and references may contain ':' and '::'
+    import json as _json
+    NAMES = ['T', ':T', 'T:', 'a:b', '::T', 'U', 'a', ':']
+    NSS = ['', 'a', 'a:', 'a::b', ':', 'NS']
+    for i in range(400 if quick else 8000):
+        doc = {}
+        for nsn in r.sample(NSS, r.randrange(1, 3)):
+            cts = {}
+            for cn in r.sample(NAMES, r.randrange(0, 4)):
+                k = r.random()
+                ref = r.choice(NAMES + [nsn + '::' + x for x in NAMES[:3]] + ['a:::T', 'a::T', 'String'])
+                cts[cn] = {"type": ref} if k < 0.6 else ({"type": "Set", "element": {"type": ref}} if k < 0.8 else
+                                                           {"type": "Record", "attributes": {"f": {"type": ref}, "g": {"type": "Long"}}})
+            ents = {en: {"shape": {"type": "Record", "attributes": {"f": {"type": r.choice(NAMES + ['Long'])}}}} if r.random() < 0.8 else {}
+                    for en in r.sample(['E', 'T', 'F'], r.randrange(1, 3))}
+            doc[nsn] = {"commonTypes": cts, "entityTypes": ents, "actions": {}}
+        rcases.append('(case j%d schemaresolve %s (json))' % (i, S(_json.dumps(doc))))
     gor = lib.run_go(rcases, 'schemaresolve', ctx.workdir, timeout_ms=20000)
     mcases, gverdict = [], {}
     for c in rcases:
